@@ -110,7 +110,17 @@ func init() {
 func quoteVerdict(h HoleCtx, cls HoleClass) (string, string) {
 	switch {
 	case h.InEval:
-		return "q2-eval", "string data inside the argument of eval is parsed by the shell a second time (expansion / execution of the value)"
+		// how the data sits in the text that eval parses again: inside \"…\", inside '…', or bare
+		inner := "bare"
+		esc := strings.Count(h.Prefix, "\"") // a quote inside the double-quoted eval argument was written as \\"
+		sq := strings.Count(h.Prefix, "'")
+		switch {
+		case esc%2 == 1:
+			inner = "dq"
+		case sq%2 == 1:
+			inner = "sq"
+		}
+		return "q2-eval/" + inner, "string data inside the argument of eval is parsed by the shell a second time (expansion / execution of the value; at the second level the data is " + map[string]string{"dq": "inside escaped double quotes: $, backquote, \\ and \" in the value are active", "sq": "inside single quotes: an apostrophe in the value ends the word and the rest is executed", "bare": "not quoted at all: blanks split it, every shell operator is active"}[inner] + ")"
 	case cls == ClsStr && h.IsCmdWord:
 		return "q5-command", "string data in command position"
 	case h.Quote == "sq":
